@@ -403,3 +403,6 @@ def run(ctx):
     from .. import numeric
     _run(ctx)
     numeric.arith_base(ctx, "C05.B1")
+    l1 = ctx.inst("C05.L1", "support lemmas: the equality that matches declared assets to pools is equality of (kind, identifier); is_native_token tests the variant — a Token spelled like a denom must not match the native pool", floor=2)
+    lemmas.check_equal(ctx, l1)
+    lemmas.check_is_native(ctx, l1)
